@@ -1,0 +1,20 @@
+//go:build verif
+
+package s2
+
+// Locations of shared ShapeIndex state reported to verifAccess.
+const (
+	verifLocCells   = 0
+	verifLocShapes  = 1
+	verifLocPending = 2
+)
+
+// VerifAccessHook, when non-nil, is called on every instrumented access to the
+// shared state of a ShapeIndex (verification builds only).
+var VerifAccessHook func(index *ShapeIndex, loc uint8, write bool)
+
+func verifAccess(index *ShapeIndex, loc uint8, write bool) {
+	if h := VerifAccessHook; h != nil {
+		h(index, loc, write)
+	}
+}
